@@ -115,7 +115,7 @@ func sigOf(o *runOut, class string) string {
 			parts = append(parts, "model="+fj.Model)
 		}
 	}
-	if o.res != nil && class == "deadlock" {
+	if o.res != nil && (class == "deadlock" || class == "livelock") {
 		var fr []string
 		for _, g := range o.res.Blocked {
 			for _, f := range g.Frames {
